@@ -16,7 +16,8 @@ PROP = {
                   "the counted queries of the window (now-limit, now], each hourly entry equals its model hour, "
                   "hourly series sum to the totals, daily series do not exceed them, per-client and per-domain "
                   "tops add up, nothing outside the window is reported. Exploration: no absence claim. The "
-                  "concurrent test samples real schedules of updaters, the single flush worker and readers.",
+                  "concurrent test samples real schedules of updaters, the single flush worker and readers."
+                  " Restarts may shut down after the hour changed but before the flush worker saw it.",
     "level_note": "Hours that have been outside the retention window at any time may or may not have been dropped: "
                   "for them the oracle accepts 'reported completely' or 'not reported' (hour mode, then all "
                   "totals are exact again) resp. the interval [certain, all] (day mode). The same holds for what was "
